@@ -6,7 +6,7 @@ import struct
 
 from ..lin import Lin, Infeasible
 from ..avals import *   # noqa
-from ..decide import Runs, need_ge0, need_eq0, definite, soft
+from ..decide import benign_unknown, Runs, need_ge0, need_eq0, definite, soft
 from ..report import Ob, PROVED, REFUTED, UNDECIDED, func_where, ASSUMPTIONS, Failure
 from ..model import norm_text, AnalysisError
 from ..units import exc_key
@@ -288,7 +288,7 @@ def check(prog, res, tier):
                 return [definite(f'{target} is constructed without the caller\'s options (blocked=... is lost)')]
             return []
         res.add(runs_k.judge('C03.e', f'{fi.name} passes its keyword options through to {target}', func_where(fi),
-                             f'{target}(..., **kwargs)', chk_k, rule=f'C03.e.{fi.name}', unknown_ok=lambda u: True))
+                             f'{target}(..., **kwargs)', chk_k, rule=f'C03.e.{fi.name}', unknown_ok=benign_unknown))
 
         def entry_k0(it, fi=fi):
             arg = ListV(items=None, elem=it.sym_bytes('rec', lo=1), length=it.sym_int('n', 0, None).lin) if 'list_to' in fi.name \
@@ -321,7 +321,7 @@ def check(prog, res, tier):
                     fails.append(definite('the in-memory file is not created inside the call'))
             return fails
         res.add(runs_k0.judge('C03.e', f'{fi.name} without options works unblocked on a fresh in-memory file', func_where(fi),
-                              f'{target}(io.BytesIO(...))', chk_k0, rule=f'C03.e.{fi.name}.default', unknown_ok=lambda u: True))
+                              f'{target}(io.BytesIO(...))', chk_k0, rule=f'C03.e.{fi.name}.default', unknown_ok=benign_unknown))
 
 
 def _read_request(p, ev):
